@@ -7,8 +7,10 @@ import ZV.Model.C18
   in the vocabulary of the T1 extractor `go/extract/c20` (file, enclosing function, ordinal in the function, polarity):
   * `modelledSites` — the uses inside `asn1.go` that are branches of the Lean model (each of the form
     `if !perm && <strict-only rejection> then err else …`), hence covered by `perm_extends`;
-  * `timeSites` — `parseUTCTime` / `parseGeneralizedTime` (`time.Time` is not in the Lean model; same shape
-    `if !flag { reject }`; covered by the certificate-level oracle T3 only);
+  * `timeSites` — `parseUTCTime` / `parseGeneralizedTime` (same shape `if !flag { reject }`; modelled in
+    `ZV.Model.Time` with the flag as the `perm` parameter: `perm_extends_utctime`, `perm_extends_gentime`,
+    `perm_extends_time_field` in ZV/Props/C20.lean, T2 stream `c20 tpc` / `c20 tu`; `time.Time` is not a leaf of
+    the deep embedding, so time FIELDS of structs are covered by the certificate-level oracle T3 only);
   * `x509Sites` — the uses in `x509/x509.go` (`parsePublicKey`, `parseGeneralNames`, `parseCertificate`);
     not modelled in Lean: pinned here by shape and covered by the certificate-level oracle T3.
 -/
